@@ -664,6 +664,72 @@ def gen_align_noncomm(rng, k, rot):
     return ctx, recipe
 
 
+# ---------------------------------------------------------------------------------------------
+# the same reduced (binder-carrying) sub-expression used twice as an operand
+# ---------------------------------------------------------------------------------------------
+
+SHARED_SHAPES = ["s*s", "s*w*s", "(s+t)*s", "s+s", "s*s*s", "s*(w*s)", "nested", "s*t-same-arg", "reduce(s*s)",
+                 "s-s*s"]
+SHARED_SR = [("add", "mul"), ("max", "add"), ("min", "add"), ("add", "mul"), ("logaddexp", "add"), ("max", "mul")]
+SHARED_GRID = [(sh, sr) for sr in SHARED_SR[:2] for sh in SHARED_SHAPES] + \
+              [(sh, sr) for sr in SHARED_SR[2:] for sh in SHARED_SHAPES]
+
+
+def gen_shared_reduction(rng, k, rot):
+    """s = x.reduce(red, 'i') occurs twice (the recipe node is literally the same tuple with the same ndarray, so
+    funsor's cons-hashing makes the two occurrences ONE object with ONE alpha-renamed bound name); `t` is
+    another reduction over the same user-level name.  (Σ_i x)·(Σ_i x) must not become Σ_i x·x."""
+    shape, (red, bop) = SHARED_GRID[k] if k < 2 * len(SHARED_SHAPES) else SHARED_GRID[(k + rot) % len(SHARED_GRID)]
+    ctx = gen_ctx(rng)
+    while len(ctx) < 2:
+        ctx[NAMES[len(ctx)]] = rng.choice([2, 3])
+    names = list(ctx)
+    i = rng.choice(names)
+    nonneg = bop == "mul" and red in ("max", "min")
+    inexact = red == "logaddexp"
+
+    def tensor(ns):
+        tt = gen_terms.gen_tensor(rng, ctx, "real", names=ns)
+        if nonneg or inexact:
+            tt = tt[:4] + (np.abs(tt[4]),)
+        return tt
+    xs = sorted(set([i] + [n for n in names if rng.random() < 0.5]))
+    x = tensor(xs)
+    if rng.random() < 0.4:
+        x = ("binary", bop if rng.random() < 0.5 else "add", x, tensor(sorted(set([i] + [n for n in names if rng.random() < 0.4]))))
+    s = ("reduce", red, x, (i,), ())
+    t = ("reduce", red, tensor(sorted(set([i] + [n for n in names if rng.random() < 0.5]))), (i,), ())
+    w_ = tensor([n for n in names if n != i and rng.random() < 0.6])
+    B = lambda a, b: ("binary", bop, a, b)
+    if shape == "s*s":
+        r = B(s, s)
+    elif shape == "s*w*s":
+        r = B(B(s, w_), s)
+    elif shape == "(s+t)*s":
+        r = B(("binary", red if red in ("add", "max", "min") else "add", s, t), s)
+    elif shape == "s+s":
+        r = ("binary", red if red in ("add", "max", "min") else "add", s, s)
+    elif shape == "s*s*s":
+        r = B(B(s, s), s)
+    elif shape == "s*(w*s)":
+        r = B(s, B(w_, s))
+    elif shape == "nested":
+        inner = B(s, s)
+        rest = sorted(set(recipe_wire(inner)[1]))
+        r = B(("reduce", red, inner, (rest[0],), ()), ("reduce", red, inner, (rest[0],), ())) if rest else inner
+    elif shape == "s*t-same-arg":
+        s2 = ("reduce", red, s[2], (i,), ())        # rebuilt identically: the same object after cons-hashing
+        r = B(B(s, w_), s2)
+    elif shape == "reduce(s*s)":
+        inner = B(s, s)
+        rest = sorted(set(recipe_wire(inner)[1]))
+        r = ("reduce", red, inner, (rest[0],), ()) if rest else inner
+    else:
+        r = ("binary", "sub", s, B(s, s))
+    env = {"__approx__": 1.0} if inexact else {}
+    return ctx, r, env
+
+
 def cases(base_seed, n):
     """The seeded case list: [(ctx, recipe, family, env)]; env binds the free real inputs; the pseudo-binding
     "__approx__" marks expressions with inexact ops (compared after rounding)."""
@@ -673,10 +739,11 @@ def cases(base_seed, n):
     grid0 = 0
     user0 = 0
     subs0 = 0
+    shared0 = 0
     align0 = 0
     dup0 = 0
     for idx in range(n):
-        if idx % 5 == 4:
+        if idx % 5 == 4 and idx % 10 != 9:
             ctx, recipe = gen_sum_product(rng)
             out.append((ctx, recipe, "sum-product", {}))
         elif idx % 10 == 7:
@@ -692,6 +759,10 @@ def cases(base_seed, n):
             ctx, recipe = gen_user_term(rng, user0, rot)
             user0 += 1
             out.append((ctx, recipe, "user-terms(make_funsor)", {}))
+        elif idx % 10 == 9:
+            ctx, recipe, env = gen_shared_reduction(rng, shared0, rot)
+            shared0 += 1
+            out.append((ctx, recipe, "shared-reduction(one reduced sub-term used twice)", env))
         elif idx % 10 == 8:
             ctx, recipe = gen_align_noncomm(rng, align0, rot)
             align0 += 1
